@@ -207,12 +207,18 @@ class CachingLoaderMixin(ABC, _CachingLoaderProtocol):
             return self._namespaced(args[self.namespace_key], name)
 
         if context is None:
-            return name
+            return self._unnamespaced(name)
 
         try:
             return self._namespaced(context.globals[self.namespace_key], name)
         except KeyError:
-            return name
+            return self._unnamespaced(name)
+
+    def _unnamespaced(self, name: str) -> str:
+        # A name loaded without a namespace must not share a key with a namespaced
+        # one: the name "a/b" is not "b" in namespace "a". An escaped namespace never
+        # holds a lone "%", so no namespaced key starts with "%/".
+        return f"%/{name}"
 
     def _namespaced(self, namespace: object, name: str) -> str:
         # Names can contain slashes too. Escaping them in the namespace keeps
